@@ -669,6 +669,42 @@ void run_stream(const Case &c, pbt::Ctx &ctx, Trace &tr) {
         const SizeT           cap_before      = s.Capacity();
         const bool            nonempty_before = !m.empty();
         const char           *name            = "";
+        if (g_gen2 && step == 2 && !c.bytes.empty() && (c.bytes.back() % 8) == 0) {
+            // growth in big steps (once per case): a stream that already holds tens of thousands of units is asked for several times
+            // its capacity at once (Expect), then gets a range of more than twice its capacity appended
+            Units big;
+            for (unsigned i = 0; i < 66000; ++i) {
+                big.push_back('a' + (i % 26));
+            }
+            {
+                jm::Buf<Char_T> b(big);
+                s.Write(b.cp(), SizeT(b.n));
+                m.insert(m.end(), big.begin(), big.end());
+            }
+            const bool by_expect = (c.bytes.back() & 8) != 0;
+            if (by_expect) {
+                const SizeT want = SizeT(s.Capacity() * 3U + 17U);
+                s.Expect(want);
+                if (s.Capacity() < s.Length() + want) {
+                    ctx.fail("stream-expect", "Expect(" + std::to_string(want) + ") on a stream of length " + std::to_string(s.Length()) + " did not provide room (capacity " +
+                                                  std::to_string(s.Capacity()) + ")");
+                }
+            } else {
+                Units        huge;
+                const size_t hn = size_t(s.Capacity()) * 2 + 4097;
+                for (size_t i = 0; i < hn; ++i) {
+                    huge.push_back('0' + (i % 10));
+                }
+                jm::Buf<Char_T> b(huge);
+                s.Write(b.cp(), SizeT(b.n));
+                m.insert(m.end(), huge.begin(), huge.end());
+            }
+            tr.add("growth in big steps");
+            check_stream(s, m, "growth in big steps", ctx);
+            s.Reset();
+            m.clear();
+            continue;
+        }
         switch (e.below(30)) {
             case 0:
             case 1: {
